@@ -1,7 +1,6 @@
 package bkl
 
 import (
-	"errors"
 	"fmt"
 	"os"
 	"path/filepath"
@@ -43,7 +42,10 @@ func ext(path string) string {
 func findFile(path string) string {
 	for ext := range formatByExtension {
 		extPath := fmt.Sprintf("%s.%s", path, ext)
-		if _, err := os.Stat(extPath); errors.Is(err, os.ErrNotExist) {
+		// Only a file that can be stat'ed exists: any other error (a name that
+		// is too long with this extension, for one) must not make this
+		// extension win or lose depending on map iteration order.
+		if _, err := os.Stat(extPath); err != nil {
 			continue
 		}
 
